@@ -676,6 +676,58 @@ theorem simple_frame_decodes (std : Nat) (e : Entry) (r : Request) (v : Spec.Req
     have hlt : rid.toNat < 256 ^ 2 := by omega
     simp [Spec.decodeRequest, Spec.hasSubfn, Spec.decodeSubfn, b1, b2, Spec.pBE_toBE 2 _ _ hlt]; omega
 
+/-! ### DynamicallyDefineDataIdentifier by source identifier -/
+
+/-- what the source entries look like on the wire: source identifier, position, size -/
+def srcCanon (entries : List DddSrc) : List (Nat × Nat × Nat) := entries.map (fun e => (e.sourceDid.toNat, e.position.toNat, e.size.toNat))
+
+theorem pSrcList_enc (entries : List DddSrc) (b : Bytes) (fuel : Nat) (hf : entries.length ≤ fuel)
+    (hd : ∀ e ∈ entries, 0 ≤ e.sourceDid ∧ e.sourceDid ≤ 0xFFFF ∧ 0 ≤ e.position ∧ 0 ≤ e.size) (h : dddSrcBytes entries = .ok b) :
+    Spec.pSrcList fuel b = some (srcCanon entries) := by
+  induction entries generalizing b fuel with
+  | nil =>
+    simp only [dddSrcBytes, pure_ok] at h; subst h
+    cases fuel <;> simp [Spec.pSrcList, srcCanon]
+  | cons e rest ih =>
+    simp only [dddSrcBytes, bind_ok, guardPy_ok, pure_ok] at h
+    obtain ⟨_, hg, tl, htl, rfl⟩ := h
+    obtain ⟨d0, d1, p0, s0⟩ := hd e (by simp)
+    have hp : e.position ≤ 0xFF ∧ e.size ≤ 0xFF := by
+      simp only [Bool.or_eq_false_iff, decide_eq_false_iff_not, Int.not_lt] at hg; omega
+    cases fuel with
+    | zero => simp at hf
+    | succ fuel =>
+      have hne : (toBE 2 e.sourceDid.toNat ++ [UInt8.ofNat e.position.toNat, UInt8.ofNat e.size.toNat] ++ tl).isEmpty = false := by simp [toBE]
+      have hdid : e.sourceDid.toNat < 256 ^ 2 := by omega
+      have e1 : Spec.pBE 2 (toBE 2 e.sourceDid.toNat ++ [UInt8.ofNat e.position.toNat, UInt8.ofNat e.size.toNat] ++ tl) =
+          some (e.sourceDid.toNat, [UInt8.ofNat e.position.toNat, UInt8.ofNat e.size.toNat] ++ tl) := by
+        rw [List.append_assoc]; exact Spec.pBE_toBE 2 _ _ hdid
+      have hpp : (UInt8.ofNat e.position.toNat).toNat = e.position.toNat := toNat_ofNat_lt (by omega)
+      have hss : (UInt8.ofNat e.size.toNat).toNat = e.size.toNat := toNat_ofNat_lt (by omega)
+      have := ih tl fuel (by simp at hf; omega) (fun x hx => hd x (by simp [hx])) htl
+      simp only [Spec.pSrcList, hne, Bool.false_eq_true, if_false, e1, List.cons_append, List.nil_append, Spec.pU8_cons, hpp, hss, this]
+      simp [srcCanon]
+
+theorem dddSrcBytes_length (entries : List DddSrc) (b : Bytes) (h : dddSrcBytes entries = .ok b) : b.length = 4 * entries.length := by
+  induction entries generalizing b with
+  | nil => simp only [dddSrcBytes, pure_ok] at h; subst h; rfl
+  | cons e rest ih =>
+    simp only [dddSrcBytes, bind_ok, guardPy_ok, pure_ok] at h
+    obtain ⟨_, _, tl, htl, rfl⟩ := h
+    simp [ih tl htl]; omega
+
+/-- **dynamically_define_did by source identifier**: `2C 01 <did> { <source did> <position> <size> }*`, every entry read back in order -/
+theorem dddByDid_frame_decodes (did : Int) (entries : List DddSrc) (r : Request) (view : Spec.SrvView) (h : dddByDidMakeRequest did entries = .ok r) :
+    ∃ frame, r.getPayload = .ok frame ∧ Spec.decodeRequest view frame = some ⟨0x2C, false, .dddByDid did.toNat (srcCanon entries)⟩ := by
+  simp only [dddByDidMakeRequest, bind_ok, C07.forM_check_ok, validateInt_ok, guardPy_ok, pure_ok] at h
+  obtain ⟨_, hchk, _, ⟨d0, d1⟩, _, _, body, hbody, rfl⟩ := h
+  refine ⟨_, payload_sf _ _ _ _ svc_ddd rfl (by decide) (by decide), ?_⟩
+  have hdid : did.toNat < 256 ^ 2 := by omega
+  have hl := dddSrcBytes_length entries body hbody
+  have hsrc := pSrcList_enc entries body body.length (by omega) hchk hbody
+  simp [Spec.decodeRequest, Spec.hasSubfn, Spec.decodeSubfn, Spec.pBE_toBE 2 _ _ hdid, hsrc]
+
+
 /-! ### the remaining simple entry points: security access, communication control, link control, clear DTC -/
 
 theorem svc_sa : svc "SecurityAccess" = ⟨"SecurityAccess", 0x27, true, true⟩ := by decide
